@@ -258,7 +258,12 @@ impl<W: tokio::io::AsyncSeek + Unpin> tokio::io::AsyncSeek for ProgressBarIter<W
     }
 
     fn poll_complete(mut self: Pin<&mut Self>, cx: &mut Context<'_>) -> Poll<io::Result<u64>> {
-        Pin::new(&mut self.it).poll_complete(cx)
+        Pin::new(&mut self.it).poll_complete(cx).map(|poll| {
+            poll.map(|pos| {
+                self.progress.set_position(pos);
+                pos
+            })
+        })
     }
 }
 
